@@ -429,7 +429,7 @@ def d7_conditions(chk, repo):
             k = v.term(call.args[0], at=st)
             if is_str(v.ctx, k, "subregions") or is_str(v.ctx, k, "subregion_names"):
                 key = "subregions" if is_str(v.ctx, k, "subregions") else "subregion_names"
-                ok = cond_equiv(v, path_term(v, st), v.spec("len(self.subregions) > 0"), [n_sub])
+                ok = reached_iff(v, st, v.spec("len(self.subregions) > 0"), [n_sub])
                 chk.ob(f"io.hdf5._MeshIO_HDF5._h5_save::{key}::iff-subregions-exist", ok, "C10.D7",
                        f"dataset '{key}' is created under {v.show(path_term(v, st))}; expected: at least one subregion "
                        "(empty tables cannot be typed, and a single subregion must not be lost)", v.f, st)
@@ -441,7 +441,7 @@ def d7_conditions(chk, repo):
     r = FV(repo, H5 + "_MeshIO_HDF5._h5_load", self_type=MESH)
     for st in r.stmts():
         if isinstance(st, ast.Assign) and isinstance(st.value, ast.DictComp):
-            ok = cond_equiv(r, path_term(r, st), r.spec("'subregions' in h5_mesh"))
+            ok = reached_iff(r, st, r.spec("'subregions' in h5_mesh"))
             chk.ob("io.hdf5._MeshIO_HDF5._h5_load::subregions-iff-dataset", ok, "C10.D7",
                    f"subregions are rebuilt under {r.show(path_term(r, st))}; expected: the file has a 'subregions' dataset", r.f, st)
     # labels sentinel: written for None, decoded for 'None'
